@@ -48,8 +48,8 @@ theorem WCtx.finishBatch_cache (c : WCtx) (batch : List WReq) (tail : Option WRe
     (c.finishBatch batch tail ok).cache = c.cache := by
   unfold WCtx.finishBatch
   cases tail with
-  | none => simp [WCtx.toRecv_cache, foldl_emit_cache]
-  | some r => simp [WCtx.nonFlush_cache, foldl_emit_cache]
+  | none => simp [WCtx.nonFlush_cache, foldl_emit_cache]
+  | some r => cases r <;> simp [WCtx.nonFlush_cache, foldl_emit_cache]
 
 theorem WCtx.startSync_same (c : WCtx) (batch : List WReq) (tail : Option WReq) :
     SameItems (c.startSync batch tail).cache c.cache := by
